@@ -61,6 +61,11 @@ impl Content {
 pub enum Step {
     Post { thread: u8, content: Content, wait: bool },
     Session { content: Content, wait: bool },
+    /// the client sends input to the most recent thread-less session once more (a retried request,
+    /// a second submit) — right away, or after that session has ended. Whatever the answer, the
+    /// session's stream must stay one well-formed stream.
+    #[serde(alias = "SecondInput")]
+    InputAgain { content: Content, after_end: bool },
     Branch,
     BlockArtifacts,
     UnblockArtifacts,
@@ -280,6 +285,17 @@ fn generate_runs(run_seed: u64, tier: Tier) -> RunsScenario {
     }
     if !steps.iter().any(|s| matches!(s, Step::Post { .. })) {
         steps.push(Step::Post { thread: 0, content: Content::Prompt("hello".into()), wait: true });
+    }
+    // own sub-stream: after a third of the thread-less sessions the client sends input once more
+    let mut arng = Rng::derive(run_seed, "c07:input-again");
+    let mut k = 0;
+    while k < steps.len() {
+        if matches!(steps[k], Step::Session { .. }) && arng.chance(1, 3) {
+            let content = if arng.chance(1, 2) { Content::Prompt("the same question again".into()) } else { Content::Tool { tool: "ls".into(), args: json!({"path": "."}), timeout_ms: None } };
+            steps.insert(k + 1, Step::InputAgain { content, after_end: arng.chance(1, 2) });
+            k += 1;
+        }
+        k += 1;
     }
     // own sub-stream: 1 in 5 scripts carry a byte that is not UTF-8 in the middle of a response
     let mut script = script;
@@ -665,6 +681,26 @@ fn execute_runs(sc: &RunsScenario, env: &Env) -> (Outcome, RunStats) {
                     }
                     }
                 }
+            }
+            Step::InputAgain { content, after_end } => {
+                let Some(sid) = sessions.last().cloned() else {
+                    continue;
+                };
+                if *after_end {
+                    match wait_runs(&engine, &posts, &sessions, &mut seen_panics) {
+                        Ok(_) => {}
+                        Err(WaitErr::Harness(e)) => return (Outcome::Harness(e), stats),
+                        Err(e @ WaitErr::Stuck { .. }) => {
+                            stuck_early = Some(e);
+                            break;
+                        }
+                    }
+                }
+                match engine.call("POST", &format!("/sessions/{sid}/input"), Some(json!({"input": content.render(&checkpoints)}))) {
+                    Ok((st, _)) => stats.bump(&format!("input_again:status_{st}"), 1),
+                    Err(e) => return (Outcome::Harness(format!("send input again: {e}")), stats),
+                }
+                stats.bump(if *after_end { "fault:input_sent_again_after_session_end" } else { "fault:input_sent_again_while_running" }, 1);
             }
             Step::Session { content, wait } => {
                 let sid = match engine.call_json("POST", "/sessions", None) {
